@@ -181,7 +181,7 @@ def r26(F):
 
 def r26c(F):
     r = RuleResult("R26c", "checker import protocol",
-                   "Checker::resolve_import: cache -> cycle test -> push in progress -> recurse -> cache insert", floor=3)
+                   "Checker::resolve_import: normalise -> cache -> cycle test -> push in progress -> recurse -> cache insert", floor=6)
     fn = F.fn("ucglib::ast::typecheck::Checker::resolve_import")
     o = Origins(fn)
     get = [b for b, t in fn.calls() if callee(t).endswith("BTreeMap::get")]
@@ -200,6 +200,17 @@ def r26c(F):
     labs = o.at(t["args"][1], b)
     ok = any(cfg.dominates(fn, pb, b) for pb in push) and "alloc::vec::Vec::push" in calls_in(labs) | {callee(fn.term(pb)) for pb in push if cfg.dominates(fn, pb, b)}
     r.inst("resolve_import:in-progress", fn.where(b), ok, "child checker receives the stack extended with the path" if ok else "child checker's import stack lacks the path in progress")
+    # the key of the cache, of the cycle test and of the in-progress mark is the normalised path: `a/./sub/../x` and `a/x`
+    # are the same file, and a cycle spelled with `..` must repeat a key
+    for what, sites in (("cache-key", [(gb, fn.term(gb)["args"][1]) for gb in get[:1]]),
+                        ("cycle-key", [(cb, ct["args"][1])]),
+                        ("mark-key", [(pb, fn.term(pb)["args"][1]) for pb in push if cfg.dominates(fn, pb, b)][:1])):
+        for sbk, arg in sites:
+            okk = "ucglib::path::normalize" in calls_in(o.at(arg, sbk))
+            r.inst("resolve_import:%s-normalised" % what, fn.where(sbk), okk,
+                   "the path is folded by path::normalize first" if okk else
+                   "the checker keys its import %s by the joined, unnormalised path: a cycle spelled with `..` never repeats a key and "
+                   "the checker recurses until the path exceeds the OS limit" % what.split("-")[0])
     return r
 
 
@@ -254,9 +265,9 @@ def r27(F):
 def r68(F):
     r = RuleResult("R68", "rewriter coverage and base directory",
                    "the rewriter handles Import and Include, joins relative paths onto its base, exempts only std/; the base is the "
-                   "parent directory of the file being translated / checked", floor=6)
+                   "parent directory of the file being translated / checked; expressions parsed late (format strings) are rewritten too", floor=7)
     fn = F.fn("<ucglib::ast::rewrite::Rewriter as ucglib::ast::walk::Visitor>::visit_expression")
-    o = Origins(fn)
+    homes = {}
     for variant in ("Import", "Include"):
         arm = None
         for b in range(len(fn.blocks)):
@@ -265,26 +276,37 @@ def r68(F):
                 e = cfg.switch_edge(t, variant=variant)
                 if e != t["otherwise"] or variant in [x.get("variant") for x in t["targets"]]:
                     blocks = {x for x in range(len(fn.blocks)) if cfg.dominates(fn, e, x)}
-                    joins = [(x, tt) for x, tt in fn.calls() if x in blocks and callee(tt) == "std::path::Path::join"]
-                    rel = [(x, tt) for x, tt in fn.calls() if x in blocks and callee(tt) == "std::path::Path::is_relative"]
-                    if joins and rel:
-                        arm = (blocks, joins, rel)
-        need(arm, "rewriter has no join/is_relative for Expression::%s" % variant)
-        blocks, joins, rel = arm
+                    # the work may sit in the arm itself or in a helper of the rewriter the arm calls
+                    cands = [(fn, blocks)]
+                    for x, tt in fn.calls():
+                        if x in blocks and callee(tt).startswith("ucglib::ast::rewrite::") and callee(tt) in F.fns:
+                            h = F.fn(callee(tt))
+                            cands.append((h, set(range(len(h.blocks)))))
+                    for hf, hb in cands:
+                        joins = [(x, tt) for x, tt in hf.calls() if x in hb and callee(tt) == "std::path::Path::join"]
+                        rel = [(x, tt) for x, tt in hf.calls() if x in hb and callee(tt) == "std::path::Path::is_relative"]
+                        if joins and rel:
+                            arm = (hf, hb, joins, rel)
+        need(arm, "rewriter has no join/is_relative for Expression::%s (neither in the arm nor in a helper it calls)" % variant)
+        hf, blocks, joins, rel = arm
+        homes[variant] = (hf, blocks)
+        o = Origins(hf)
         jb, jt = joins[0]
         ok_base = ("field", "base") in o.at(jt["args"][0], jb)
         rb, rt = rel[0]
-        sb, ft, tt = util.bool_switches(fn, rt["dest"]["l"])[0]
-        ok_rel = cfg.dominates(fn, tt, jb)
-        # the joined path is stored back into def.path.fragment
+        sb, ft, tt = util.bool_switches(hf, rt["dest"]["l"])[0]
+        ok_rel = cfg.dominates(hf, tt, jb)
+        # the joined path is stored back into the token's fragment
         stored = any(("call", "std::path::Path::join", jb) in o.at(rv["ops"][0], b) and "fragment" in [e.get("f") for e in pl["p"] if isinstance(e, dict)]
-                     for b, j, pl, rv, m in fn.assigns() if b in blocks and rv["k"] == "use" and op_place(rv["ops"][0]) is not None)
-        r.inst("rewriter:%s" % variant, fn.where(jb), ok_base and ok_rel and stored,
+                     for b, j, pl, rv, m in hf.assigns() if b in blocks and rv["k"] == "use" and op_place(rv["ops"][0]) is not None)
+        r.inst("rewriter:%s" % variant, hf.where(jb), ok_base and ok_rel and stored,
                "relative path := base.join(path), stored back" if ok_base and ok_rel and stored else
                "rewriter does not rewrite %s paths correctly (base: %s, only-if-relative: %s, stored: %s)" % (variant, ok_base, ok_rel, stored))
-    # exemption: only a path starting with std/ returns early
-    sw = [(b, t) for b, t in fn.calls() if callee(t) == "std::path::Path::starts_with"]
-    need(len(sw) == 1, "expected exactly one starts_with exemption in the rewriter, found %d" % len(sw))
+    # exemption: only an import path starting with std/ is left alone
+    sws = []
+    for hf in {homes["Import"][0], homes["Include"][0], fn}:
+        sws += [(hf, b, t) for b, t in hf.calls() if callee(t) == "std::path::Path::starts_with"]
+    need(len(sws) == 1, "expected exactly one starts_with exemption in the rewriter, found %d" % len(sws))
     from ..facts import syn_walk
     lits = []
     def visit(n):
@@ -295,10 +317,17 @@ def r68(F):
     syn_walk(F.syn["ast/rewrite.rs"], visit)
     okx = "std{}" in lits
     # the starts_with argument is that formatted string, its true edge returns without rewriting
-    sb_, ft_, tt_ = util.bool_switches(fn, sw[0][1]["dest"]["l"])[0]
-    joins_all = {x for x, tt2 in fn.calls() if callee(tt2) == "std::path::Path::join"}
-    okx = okx and not (cfg.reachable(fn, tt_) & joins_all)
-    r.inst("rewriter:std-exempt", fn.where(sw[0][0]), okx, "only paths starting with std<sep> are left alone" if okx else "exemption is not exactly the std/ prefix (format literals: %s)" % lits)
+    xf, xb, xt = sws[0]
+    sb_, ft_, tt_ = util.bool_switches(xf, xt["dest"]["l"])[0]
+    joins_all = {x for x, tt2 in xf.calls() if callee(tt2) == "std::path::Path::join"}
+    okx = okx and not (cfg.reachable(xf, tt_) & joins_all)
+    r.inst("rewriter:std-exempt", xf.where(xb), okx, "only paths starting with std<sep> are left alone" if okx else "exemption is not exactly the std/ prefix (format literals: %s)" % lits)
+    inc_f, inc_blocks = homes["Include"]
+    inc_exempt = xf is inc_f and xb in inc_blocks
+    r.inst("rewriter:std-exempt:import-only", xf.where(xb), not inc_exempt,
+           "the std/ exemption is applied to imports only (the standard library is embedded; included files are read from disk)" if not inc_exempt else
+           "the std/ exemption is also applied to include paths: `include str \"std/x.txt\"` keeps its relative path and is read "
+           "relative to the process's working directory")
     # base provenance
     gp = F.closures_of("ucglib::build::opcode::environment::Environment::get_ops_for_path")
     need(gp, "get_ops_for_path closure not found")
@@ -336,7 +365,61 @@ def r68(F):
             labs = ofb.at(rv["ops"][0], b) if rv.get("ops") else set()
             okb = "std::path::Path::parent" in calls_in(labs)
     r.inst("base:FileBuilder::build", fb.where(), okb, "working_dir = parent() of the built file" if okb else "FileBuilder::build does not set working_dir from the file's parent")
+    # expressions parsed after the rewriter ran (the `@{...}` parts of a format string) get their own rewriter pass
+    tp = F.fn("ucglib::build::opcode::translate::AST::translate_template_part")
+    sw = [(b, tp.term(b)) for b in range(len(tp.blocks)) if tp.term(b)["k"] == "switch" and tp.term(b).get("enum") == "ucglib::ast::TemplatePart"]
+    need(len(sw) == 1, "translate_template_part does not match on the template part")
+    e = cfg.switch_edge(sw[0][1], variant="Expression")
+    need(e is not None, "translate_template_part has no Expression arm")
+    region = cfg.reachable(tp, e)
+    tcalls = [b for b, t in tp.calls() if b in region and callee(t).endswith("AST::translate_expr")]
+    walks = [b for b, t in tp.calls() if b in region and callee(t) == "ucglib::ast::walk::Walker::walk_expression"
+             and "ucglib::ast::rewrite::Rewriter" in tp.local_ty(op_local(t["args"][0]) or 0)]
+    news = [(b, t) for b, t in tp.calls() if b in region and callee(t) == "ucglib::ast::rewrite::Rewriter::new"]
+    otp = Origins(tp)
+    root_params = [i for i in range(1, tp.nargs + 1) if "std::path::Path" in tp.local_ty(i)]
+    base_ok = bool(news) and bool(root_params) and all(("param", root_params[0]) in otp.at(t["args"][0], b) for b, t in news)
+    need(tcalls, "the Expression arm of translate_template_part does not translate the expression")
+    for tb in tcalls:
+        ok = base_ok and any(cfg.dominates(tp, wb, tb) for wb in walks)
+        r.inst("late-parsed:template-expression", tp.where(tb), ok,
+               "the embedded expression passes a Rewriter(root) before it is translated" if ok else
+               "an expression parsed out of a format string is translated without passing the rewriter: an import or include inside "
+               "`@{...}` keeps its relative path and resolves against the process's working directory")
     return r
 
 
-RULES = [r25, r26, r26c, r27, r68]
+def r27n(F):
+    r = RuleResult("R27n", "one spelling per file",
+                   "path::normalize rebuilds its result from the components of the argument on every path (no exit hands the argument "
+                   "back as it is), dropping `.` and folding `..`: the import cache and the import stack are keyed by the resulting "
+                   "string, so a path that skips normalisation is a second key for the same file", floor=3)
+    fn = F.fn("ucglib::path::normalize")
+    # the parameter must not flow into the return place by plain moves/copies
+    cps = util.copies_of(fn, 1, allow_not=False)
+    direct = 0 in cps
+    r.inst("normalize:no-identity-exit", fn.where(), not direct,
+           "the result is always the rebuilt path" if not direct else
+           "normalize returns its argument unchanged on some path: `dir/./lib/x.ucg` and `dir/lib/x.ucg` become two cache keys and the file is evaluated twice")
+    loops = cfg.natural_loops(fn)
+    need(len(loops) == 1, "normalize: component loop not found")
+    h, body = next(iter(loops.items()))
+    rets = [b for b in range(len(fn.blocks)) if not fn.is_cleanup(b) and fn.term(b)["k"] == "return"]
+    ok = all(not (cfg.reachable(fn, 0, removed={h}) & {rb}) for rb in rets)
+    r.inst("normalize:loop-on-every-path", fn.where(h), ok, "every return has gone through the component loop" if ok else
+           "a return of normalize bypasses the component loop")
+    sw = [(b, fn.term(b)) for b in body if fn.term(b)["k"] == "switch" and (fn.term(b).get("enum") or "").endswith("path::Component")]
+    need(sw, "normalize does not match on the component kind")
+    st = sw[0][1]
+    pushes = {b for b, t in fn.calls() if callee(t) == "std::path::PathBuf::push"}
+    pops = {b for b, t in fn.calls() if callee(t) == "std::path::PathBuf::pop"}
+    cur = cfg.switch_edge(st, variant="CurDir")
+    par = cfg.switch_edge(st, variant="ParentDir")
+    ok = cur is not None and par is not None and not (cfg.reachable(fn, cur, removed={h}) & (pushes | pops)) and \
+        bool(cfg.reachable(fn, par, removed={h}) & pops) and not (cfg.reachable(fn, par, removed={h}) & pushes)
+    r.inst("normalize:dot-and-dotdot", fn.where(sw[0][0]), ok, "`.` adds nothing, `..` removes the last component" if ok else
+           "normalize does not drop `.` / fold `..`")
+    return r
+
+
+RULES = [r25, r26, r26c, r27, r27n, r68]
